@@ -16,6 +16,7 @@
   normal form.
 -/
 import MellonProofs.SerialLemmas
+import MellonProofs.CovRefuseLemmas
 
 namespace Mellon.C19
 open Mellon
@@ -190,13 +191,150 @@ theorem not_a_kernel_nested (kvs : List (String × PyVal)) (k : PairKind) (v : P
   simp [covFromDict, h1, h2, covFromKey_eq, h3, not_a_kernel_refused v h4]
 
 /-- Class lookup is by name: `Add`, `Mul`, `Pow` resolve in `base_cov` whatever module the state
-    names; the six kernels resolve in `mellon.cov`; an unknown name there is an `AttributeError`. -/
+    names; the six kernels resolve in `mellon.cov`; an unknown name there is refused with `ValueError`
+    (it was an `AttributeError` before the repair), and so is the abstract base class `Covariance`
+    (it was a `TypeError`: "Can't instantiate abstract class"). -/
 theorem class_lookup_by_name (mo : String) :
     covClass "Add" mo = .ok (.pair .add) ∧ covClass "Mul" mo = .ok (.pair .mul)
     ∧ covClass "Pow" mo = .ok (.pair .pow)
     ∧ covClass "Matern52" "mellon.cov" = .ok (.leaf .matern52)
-    ∧ covClass "NoSuchKernel" "mellon.cov" = .error (.internal "AttributeError") := by
-  refine ⟨rfl, rfl, rfl, rfl, rfl⟩
+    ∧ covClass "NoSuchKernel" "mellon.cov" = .error (.valueError "class-lookup")
+    ∧ covClass "Covariance" mo = .error (.valueError "not-a-kernel-class") := by
+  refine ⟨covClass_add mo, covClass_mul mo, covClass_pow mo, covClass_matern52, ?_, ?_⟩
+  · simp [covClass, baseCovNonKernelGlobals]
+  · simp [covClass, baseCovNonKernelGlobals]
+
+/-! ### malformed kernel states (repair of finding A7)
+
+  A dict that carries the marker `"type": "mellon.Covariance"` but is otherwise not what `to_dict`
+  writes.  Before the repair these ended in `KeyError` / `AttributeError` / `TypeError`. -/
+
+/-- TOTALITY OF THE REFUSAL.  Whatever the input — any Python value of the model, at any nesting depth —
+    `Covariance.from_dict` ends in a kernel, in `ValueError`, or in the model's own `unmodelled` mark
+    (input outside the modelled fragment: a class of another module, a kernel with another attribute
+    set, an `active_dims` object of a foreign type, …; not an outcome of the code). -/
+theorem malformed_kernel_refused (v : PyVal) :
+    (∃ c, covFromDict v = .ok c) ∨ (∃ k, covFromDict v = .error (.valueError k))
+      ∨ (∃ w, covFromDict v = .error (.unmodelled w)) := by
+  have h := refusing_covFromDict v
+  rcases hv : covFromDict v with e | c
+  · rw [hv] at h
+    cases e with
+    | valueError k => exact .inr (.inl ⟨k, rfl⟩)
+    | unmodelled w => exact .inr (.inr ⟨w, rfl⟩)
+    | typeError k => simp [refusing, PyErr.refusal] at h
+    | internal k => simp [refusing, PyErr.refusal] at h
+  · exact .inl ⟨c, rfl⟩
+
+/-- … in particular never an internal error (`KeyError`, `AttributeError`) and never a `TypeError`. -/
+theorem never_internal_error (v : PyVal) (s : String) :
+    covFromDict v ≠ .error (.internal s) ∧ covFromDict v ≠ .error (.typeError s) := by
+  have h := refusing_covFromDict v
+  constructor <;> intro hv <;> rw [hv] at h <;> simp [refusing, PyErr.refusal] at h
+
+/-- A state without `metadata`, or whose `metadata` is not a dict. -/
+theorem metadata_required (kvs : List (String × PyVal)) (h1 : isKernelState (.dict kvs) = true) :
+    (alookup "metadata" kvs = none → covFromDict (.dict kvs) = .error (.valueError "missing-field"))
+    ∧ (∀ v, alookup "metadata" kvs = some v → (∀ md, v ≠ .dict md) →
+        covFromDict (.dict kvs) = .error (.valueError "field-type")) := by
+  constructor
+  · intro h; simp [covFromDict, h1, stateClass, h]
+  · intro v h hv
+    cases v with
+    | dict md => exact absurd rfl (hv md)
+    | _ => simp [covFromDict, h1, stateClass, h]
+
+/-- `metadata` without `classname`, or without `module_name`. -/
+theorem class_fields_required (kvs md : List (String × PyVal)) (h1 : isKernelState (.dict kvs) = true)
+    (hm : alookup "metadata" kvs = some (.dict md)) :
+    (alookup "classname" md = none → covFromDict (.dict kvs) = .error (.valueError "missing-field"))
+    ∧ (∀ c, alookup "classname" md = some (.str c) → alookup "module_name" md = none →
+        covFromDict (.dict kvs) = .error (.valueError "missing-field")) := by
+  constructor
+  · intro h; simp [covFromDict, h1, stateClass, hm, strField, h]
+  · intro c hc h; simp [covFromDict, h1, stateClass, hm, strField, hc, h]
+
+/-- `classname` / `module_name` that are not strings. -/
+theorem class_fields_typed (kvs md : List (String × PyVal)) (v : PyVal) (h1 : isKernelState (.dict kvs) = true)
+    (hm : alookup "metadata" kvs = some (.dict md)) (hv : ∀ s, v ≠ .str s) :
+    (alookup "classname" md = some v → covFromDict (.dict kvs) = .error (.valueError "field-type"))
+    ∧ (∀ c, alookup "classname" md = some (.str c) → alookup "module_name" md = some v →
+        covFromDict (.dict kvs) = .error (.valueError "field-type")) := by
+  constructor
+  · intro h
+    cases v with
+    | str s => exact absurd rfl (hv s)
+    | _ => simp [covFromDict, h1, stateClass, hm, strField, h]
+  · intro c hc h
+    cases v with
+    | str s => exact absurd rfl (hv s)
+    | _ => simp [covFromDict, h1, stateClass, hm, strField, hc, h]
+
+/-- A name that is none of the nine classes `to_dict` writes (nor `CovariancePair`) does not resolve
+    to a kernel class in `mellon.cov`: refused. -/
+theorem unknown_class_refused (cls : String)
+    (h : cls ∉ ["Add", "Mul", "Pow", "CovariancePair", "Matern32", "Matern52", "ExpQuad", "Exponential",
+                "RatQuad", "Linear"]) :
+    ∃ k, covClass cls "mellon.cov" = .error (.valueError k) := by
+  simp only [List.mem_cons, List.not_mem_nil, or_false, not_or] at h
+  obtain ⟨h1, h2, h3, h4, h5, h6, h7, h8, h9, h10⟩ := h
+  unfold covClass
+  simp only [h1, h2, h3, h4, h5, h6, h7, h8, h9, h10, if_false, if_true]
+  split
+  · exact ⟨_, rfl⟩
+  · exact ⟨_, rfl⟩
+
+/-- A kernel of a leaf class without `data`, or whose `data` is not a dict. -/
+theorem data_required (kvs : List (String × PyVal)) (k : LeafKind) (h1 : isKernelState (.dict kvs) = true)
+    (h2 : stateClass kvs = .ok (.leaf k)) :
+    (alookup "data" kvs = none → covFromDict (.dict kvs) = .error (.valueError "missing-field"))
+    ∧ (∀ v, alookup "data" kvs = some v → (∀ d, v ≠ .dict d) →
+        covFromDict (.dict kvs) = .error (.valueError "field-type")) := by
+  constructor
+  · intro h; simp [covFromDict, h1, h2, leafFromState, h]
+  · intro v h hv
+    cases v with
+    | dict d => exact absurd rfl (hv d)
+    | _ => simp [covFromDict, h1, h2, leafFromState, h]
+
+/-- A sum / product / power without its left operand … -/
+theorem left_operand_required (kvs : List (String × PyVal)) (k : PairKind) (h1 : isKernelState (.dict kvs) = true)
+    (h2 : stateClass kvs = .ok (.pair k)) (h3 : alookup "left_data" kvs = none) :
+    covFromDict (.dict kvs) = .error (.valueError "missing-field") := by
+  simp [covFromDict, h1, h2, covFromKey_eq, h3]
+
+/-- … or without its right operand (the left one being a kernel). -/
+theorem right_operand_required (kvs : List (String × PyVal)) (k : PairKind) (l : PyVal) (cl : Cov PyVal)
+    (h1 : isKernelState (.dict kvs) = true) (h2 : stateClass kvs = .ok (.pair k))
+    (h3 : alookup "left_data" kvs = some l) (h4 : covFromDict l = .ok cl) (h5 : alookup "right_data" kvs = none) :
+    covFromDict (.dict kvs) = .error (.valueError "missing-field") := by
+  simp [covFromDict, h1, h2, covFromKey_eq, h3, h4, covRightFromKey_none kvs h5]
+
+/-- A parameter record, scalar operand or `active_dims` record that `deserialize` cannot read (a dict
+    without `"type"` or `"data"`: `KeyError`; a bad shape: `TypeError`; …) is a `ValueError` of the kernel. -/
+theorem malformed_value_refused {α : Type} (r : PyM α) (e : PyErr) (h : r = .error e)
+    (hu : ∀ w, e ≠ .unmodelled w) : refuseMalformed r = .error (.valueError "malformed-value") := by
+  subst h
+  cases e with
+  | unmodelled w => exact absurd rfl (hu w)
+  | _ => rfl
+
+/-- Witnesses of finding A7 (the reproducer's cases), on the model: marker only; a record without
+    `"type"` as the scalar operand of a product. -/
+theorem malformed_witnesses :
+    covFromDict (.dict [("type", .str "mellon.Covariance")]) = .error (.valueError "missing-field")
+    ∧ covFromDict (.dict [("type", .str "mellon.Covariance"),
+        ("metadata", .dict [("classname", .str "ExpQuad"), ("module_name", .str "mellon.cov")])])
+        = .error (.valueError "missing-field")
+    ∧ covFromDict (.dict [("type", .str "mellon.Covariance"), ("data", .dict []),
+        ("metadata", .dict [("classname", .str "Covariance"), ("module_name", .str "mellon.base_cov")])])
+        = .error (.valueError "not-a-kernel-class")
+    ∧ covFromDict (.dict [("type", .str "mellon.Covariance"), ("data", .dict [("ls", .dict [("data", .int 1)])]),
+        ("metadata", .dict [("classname", .str "ExpQuad"), ("module_name", .str "mellon.cov")])])
+        = .error (.valueError "malformed-value") := by
+  refine ⟨?_, ?_, ?_, ?_⟩ <;>
+    simp [covFromDict, isKernelState, alookup, stateClass, strField, covClass, baseCovNonKernelGlobals,
+      leafFromState, refuseMalformed, deserializeK, deserialize]
 
 /-- Every supported way of writing `active_dims` (integer, NumPy integer, list, tuple, integer or
     boolean array, slice) denotes the same selection after the round trip. -/
